@@ -1,6 +1,38 @@
 """Property -> units.  A unit module exposes build(repo) returning a vlib.Unit (Verus) or klib.KaniUnit (Kani)."""
 
 PROPERTIES = {
+    'C01': {
+        'units': ['mvcc', 'mvcc_kani'],
+        'level': 'proof',
+        'technique': 'Verus contracts on extracted visibility predicates + snapshot-stability lemmas (unbounded); Kani loop-free harness (complete) and per-length chain harnesses (bounded, labelled)',
+        'level_text': 'Kernel-level proof: EpochId/VersionInfo visibility functions equal the property\'s own predicate for all inputs; add_version/gc meet whole-view contracts; lemmas derive repeatable-read / no-dirty-read / read-your-writes from those contracts. Chain search functions are checked by bounded Kani harnesses (every chain length 0..=3 quick, 0..=5 thorough), reported separately and not counted as proved.',
+        'level_note': 'Assumption A1 (stamping discipline of callers) is NOT checked and, from reading session.rs, does not hold today; sessions/stores/operators are outside both verifiers. Trusted: derived PartialEq structural, VecDeque::is_empty spec, Verus/Z3, Kani/CBMC.',
+        'explanation': 'Contracts on the MVCC visibility kernel of crates/grafeo-common/src/mvcc.rs (real functions extracted/injected on every run); the surrounding sessions and stores are named as unverified.',
+    },
+    'C02': {
+        'units': ['tm', 'mvcc_kani'],
+        'level': 'proof',
+        'technique': 'Verus contracts on extracted TransactionManager::{commit,abort} (state machine + frame over whole maps); Kani bounded harness for VersionChain::remove_versions_by',
+        'level_text': 'Proof that commit/abort are all-or-nothing on the manager state: Err leaves transactions, commit epochs and the epoch counter unchanged; Ok flips exactly one transaction; abort never commits. Rollback of one version chain (remove_versions_by) removes all and only the transaction\'s versions: bounded Kani harnesses per chain length, not counted as proved.',
+        'level_note': 'LpgStore::discard_uncommitted_versions, label/property/adjacency side tables and RdfStore commit/rollback are RwLock<FxHashMap> code outside both verifiers (reading them: rollback does not undo labels/properties/adjacency/delete marks). Locks dropped by rule E3: sequential contract only.',
+        'explanation': 'State-machine contract of the transaction manager and whole-view contract of per-chain rollback.',
+    },
+    'C03': {
+        'units': ['tm'],
+        'level': 'proof',
+        'technique': 'Verus function contract + loop invariants on the mechanically extracted TransactionManager::commit (write-write validation), postconditions taken from the property statement',
+        'level_text': 'Unbounded proof, over every transaction table, write set and epoch assignment, that commit refuses iff a transaction that committed after we began wrote one of our entities (no lost update; never refused for a writer that committed before we began), and that refusal changes nothing.',
+        'level_note': 'Locks dropped (rule E3): one critical section executed atomically, interleavings not covered. FxHashMap == std HashMap assumed. Trusted: HashMap::get_mut / HashSet::clone specs, derived Eq/Hash lawful. gc() is not under contract (adapter chains): "clean-up never changes accepted commits" is undecided. No operator calls record_write today (outside reach).',
+        'explanation': 'commit() of crates/grafeo-engine/src/transaction/manager.rs extracted on every run; four validation loops carry invariants that imply the property-level postconditions.',
+    },
+    'C04': {
+        'units': ['tm'],
+        'level': 'proof',
+        'technique': 'Verus function contract + loop invariants on the extracted commit (read-set / SSI validation)',
+        'level_text': 'Unbounded proof that a Serializable transaction is refused with SerializationFailure iff an overlapping committed transaction wrote something it read; read-only-nonoverlapping and non-Serializable transactions are never refused with it. The history-level serial-order theorem is not proved (contract level only).',
+        'level_note': 'Same trusted base as C03. Backward validation at commit is what is proved; equivalence to a serial order over whole histories is not derived. Reads are not recorded by callers today (outside reach).',
+        'explanation': 'SSI clauses of the same commit() contract.',
+    },
     'C15': {
         'units': ['rle', 'bitpack', 'delta', 'bitvec'],
         'level': 'proof',
